@@ -325,10 +325,10 @@ Proof.
             = (ROk v, s') -> reach Ka s s' \/ reach Kb s s').
   { intros r0 s0 Ht E. apply this_or_that_state in Ht.
     destruct r0 as [[|]|e]; inv E.
-    - left. apply Ha in Ea. destruct Ht as [->|[w ->]]; [exact Ea|].
-      eapply reach_trans; [exact Ea|apply save_conflicts_reach].
-    - right. apply Hb in Eb. destruct Ht as [->|[w ->]]; [exact Eb|].
-      eapply reach_trans; [exact Eb|apply save_conflicts_reach]. }
+    - left. apply Ha in Ea. destruct Ht as [->|[w [Hw ->]]]; [exact Ea|].
+      eapply reach_trans; [exact Ea|apply save_conflicts_reach; exact Hw].
+    - right. apply Hb in Eb. destruct Ht as [->|[w [Hw ->]]]; [exact Eb|].
+      eapply reach_trans; [exact Eb|apply save_conflicts_reach; exact Hw]. }
   destruct ra; try (inv H; fail); destruct rb; try (inv H; fail);
     destruct (this_or_that _ _ s sa sb) as [r0 s0] eqn:Ht; eapply Hcase; eauto.
 Qed.
